@@ -1076,6 +1076,9 @@ class ConvertInstance:
                     and source.type is _boolean.boolean
                     and target.type is _boolean.boolean
                 ):
+                    # the source may itself be the result of a removed cast
+                    if source in replacement_map:
+                        source = replacement_map[source]
                     replacement_map[target] = source
                     return ir.Nop()
 
